@@ -1405,6 +1405,32 @@ def k4_raw_byte(b: int, alone: bool) -> bool:
     return ob.post(ok)
 
 
+def _pre_k4q(code, iq, both, ignore) -> bool:
+    if ignore and not ob.case()['form'].startswith('run'):
+        return False  # only `run` has -ignore-exit-code
+    if ob.case().get('both') is not None and both != ob.case()['both']:
+        return False
+    return 0 <= code <= 255 and 0 <= iq < len(sp.QUIET_OUTPUTS)
+
+
+def k4_quiet_exit(code: int, iq: int, both: bool, ignore: bool) -> bool:
+    """
+    pre: _pre_k4q(code, iq, both, ignore)
+    post: _
+    """
+    # a program that says NOTHING (or white space only) on stderr [and stdout]: every exit code 0..255 - the exit code
+    # alone decides the outcome
+    code_ = ob.concrete_int(code, 0, 255)
+    data = ob.pick(sp.QUIET_OUTPUTS, iq)
+    both_ = ob.concrete_bool(both)
+    ignore_ = ob.concrete_bool(ignore)
+    with L.no_tracing():
+        case = _k3_case('instr/%s/%s' % (ob.case()['phase'], ob.case()['form']))
+        child = L.Child(out=(data if both_ else 'o'), err=data, code=code_)
+        ok = _instruction_outcome_ok(case, code_, ignore_, child, ob.case().get('oracle_bug'))
+    return ob.post(ok)
+
+
 def _pre_k4g(v, ib, ic) -> bool:
     c = ob.case()
     if not (0 <= v < len(sp.GENERATOR_VARIANTS) and 0 <= ib < len(sp.RAW_OUTPUTS) and 0 <= ic < len(_codes(c))):
@@ -1780,6 +1806,24 @@ def obligations(tier: str) -> List[Ob]:
                 kernel='K4', selector=True,
                 bound='as K4:raw-output/any-byte, the program run by %s in [%s]' % (form, ph),
                 timeout=300, real=REAL_K3 + REAL_K4 + REAL_K4_RAW, stubs=raw_stubs))
+    quiet_cells = [(ph, f) for ph in PHASES for f in RAW_FORMS] if tier == 'thorough' else \
+        [(ph, ('%', '$', 'run', '$')[i]) for i, ph in enumerate(PHASES)]
+    quiet_both = None if tier == 'thorough' else True
+    for ph, form in quiet_cells:
+        obs.append(Ob(
+            name='K4:raw-output/quiet/%s/%s' % (ph, form), fn='k4_quiet_exit',
+            case=dict(phase=ph, form=form, both=quiet_both),
+            kernel='K4', selector=True,
+            bound='a program run by %s in [%s] that exits with every code 0..255 (symbolic integer, made concrete) and writes '
+                  'each of %r to stderr and stdout%s, with and without -ignore-exit-code (run only): '
+                  'non-zero and not ignored => %s, else PASS - whatever was (not) written' % (
+                      form, ph, sp.QUIET_OUTPUTS, ' / to stderr only' if quiet_both is None else '', 'FAIL' if ph == 'assert' else 'HARD_ERROR'),
+            timeout=600, real=REAL_K3 + REAL_K4 + REAL_K4_RAW, stubs=raw_stubs,
+            entry='full_execution.execute on the parsed test case'))
+    obs.append(Ob(name='K4:seeded-quiet-hard-error-in-assert', fn='k4_quiet_exit',
+                  case=dict(phase='assert', form='$', oracle_bug='hard-error-everywhere'), kernel='K4',
+                  selector=True, bound='seeded oracle error: HARD_ERROR expected for a non-zero exit code in [assert] too',
+                  timeout=120, expect=ob.REFUTE, real=REAL_K3 + REAL_K4 + REAL_K4_RAW, stubs=raw_stubs))
     obs.append(Ob(name='K4:seeded-raw-hard-error-in-assert', fn='k4_raw_instruction',
                   case=dict(phase='assert', tier=tier, forms=RAW_FORMS[:1], oracle_bug='hard-error-everywhere'), kernel='K4',
                   selector=True, bound='seeded oracle error: HARD_ERROR expected for a non-zero exit code in [assert] too',
